@@ -112,6 +112,28 @@ def _edits(kind, c, universe):
     d = clone()
     d["hmeta"]["k"] = "edited" if d["hmeta"].get("k") != "edited" else "edited2"
     out.append(("hypergraph-metadata", d, None))
+
+    def reorder(md):
+        if isinstance(md, dict):
+            for key in sorted(md):
+                v = md[key]
+                if isinstance(v, list) and len(v) >= 2 and v != v[::-1]:
+                    md[key] = v[::-1]
+                    return True
+        return False
+
+    d = clone()
+    if any(reorder(d["nodes"][n]) for n in sorted(d["nodes"], key=tag)):
+        out.append(("reorder-list-in-node-metadata", d, None))
+    d = clone()
+    if any(reorder(rec[2]) for rec in d["edges"]):
+        out.append(("reorder-list-in-hyperedge-metadata", d, None))
+    d = clone()
+    d["hmeta"]["lst"] = ["x", "y"]
+    d2 = clone()
+    d2["hmeta"]["lst"] = ["y", "x"]
+    out.append(("list-order-in-hypergraph-metadata", d, None))
+    out.append(("list-order-in-hypergraph-metadata", d2, None))
     if all(type(w) is int and w == 1 for _, w, _ in c["edges"]):
         out.append(("toggle-weightedness", clone(), (not c["weighted"])))
     return out
